@@ -764,6 +764,12 @@ func (in *Interp) strBytes(s Str) []*sym.Term {
 }
 
 func (in *Interp) strConcat(a, b Str) Str {
+	if a.Opq == nil && a.B == nil && a.S == "" {
+		return b
+	}
+	if b.Opq == nil && b.B == nil && b.S == "" {
+		return a
+	}
 	if a.Opq != nil || b.Opq != nil {
 		nn := false
 		if a.Opq != nil && a.Opq.NotNilWord || b.Opq != nil && b.Opq.NotNilWord {
